@@ -258,7 +258,7 @@ func (H) Gen(prop string, seed uint64, tier string) *hx.Case {
 		cfg.P = cfg.baseP()
 	} else if prop == "C05" && r.Chance(0.1) {
 		cfg.Young = r.Range(1, 9) // a chain younger than eleven blocks (every rule active from height 1)
-	} else if (prop == "C05" || prop == "C06") && r.Chance(0.25) {
+	} else if (prop == "C05" || prop == "C06") && r.Chance(0.25) || prop == "C07" && r.Chance(0.08) {
 		cfg.Long = true // across the retarget boundary at height 4032 (every rule active from height 1)
 	} else if cfg.Testnet && r.Chance(0.6) {
 		cfg.Testnet4 = true // keeps every rule active from height 1
@@ -477,12 +477,16 @@ func (H) Gen(prop string, seed uint64, tier string) *hx.Case {
 			best = n
 		}
 	}
-	if cfg.Long && cfg.Testnet && prop == "C06" && r.Chance(0.5) && int(best.Height) > cfg.plen()+2 {
+	var lightFork *ledger.Node // light-first schedule: the node follows the longer-but-lighter branch before the heavier, shorter one arrives
+	if cfg.Long && cfg.Testnet && (prop == "C06" || prop == "C07") && r.Chance(0.5) && int(best.Height) > cfg.plen()+2 {
 		// a longer-but-lighter branch: minimum-difficulty blocks (test-net rule, stamped more than twenty minutes
 		// after their parents) outnumber the blocks of the active chain above the fork but carry less work
 		d := uint32(r.Range(1, 3))
 		if fork := best.Ancestor(best.Height - d); fork != nil && int(fork.Height) >= cfg.plen() && fork.Bits != cfg.P.PowLimitBits {
 			cur := fork
+			if r.Chance(0.6) {
+				lightFork = fork
+			}
 			for j := 0; j < int(d)+1+r.Intn(2); j++ {
 				b, ok := m.Build(cur, ledger.BlockOpts{NTx: r.Intn(3), Time: cur.Time + 1201 + uint32(r.Intn(100))})
 				if !ok {
@@ -610,6 +614,27 @@ func (H) Gen(prop string, seed uint64, tier string) *hx.Case {
 			order[i], order[j] = order[j], order[i]
 		}
 	}
+	saveAfter := -1
+	if lightFork != nil {
+		// everything that does not descend from the fork point, then the light branch, a snapshot, then the rest
+		var before, light, after []int
+		for _, bi := range order {
+			n := l.Nodes[cfg.Blocks[bi].Hash()]
+			switch {
+			case cfg.Blocks[bi].Label == "light-branch":
+				light = append(light, bi)
+			case n != nil && n.Height > lightFork.Height && n.Ancestor(lightFork.Height) == lightFork:
+				after = append(after, bi)
+			default:
+				before = append(before, bi)
+			}
+		}
+		sort.Ints(light)
+		if len(light) > 0 {
+			saveAfter = light[len(light)-1]
+		}
+		order = append(append(before, light...), after...)
+	}
 	var ops []json.RawMessage
 	id := 0
 	add := func(o Op) { id++; o.ID = id; ops = append(ops, hx.J(o)) }
@@ -624,6 +649,11 @@ func (H) Gen(prop string, seed uint64, tier string) *hx.Case {
 			continue
 		}
 		add(Op{Op: "deliver", B: bi})
+		if bi == saveAfter {
+			add(Op{Op: "save"})
+			add(Op{Op: "tick", Ms: 2000}) // (time for the snapshot to appear before the next block aborts it)
+			continue
+		}
 		if r.Chance(0.07) {
 			add(Op{Op: "deliver", B: bi}) // duplicate
 		}
